@@ -148,6 +148,25 @@ CHECKS = {
              "InvalidChordException).",
         ref="4/C14, App. E",
         category="fault_enumeration"),
+    "C16": dict(
+        technique="TLA+ clustering-index definitions in two formulations checked equal by TLC; exported contingency tables "
+                  "and exact rationals replayed into the code",
+        text="SegmentCluster.tla samples frames (later interval at a boundary, case-insensitive), builds the contingency table "
+             "and defines pairwise P/R, Rand, ARI by frame-pair counting AND by binomial closed forms; MC_C16 enumerates every "
+             "pair of labelled segmentations (<=3 segments, labels incl. case variants) x frame sizes and checks formulation "
+             "agreement, swap symmetry, perfect-when-same, relabel invariance, ranges. Rows are replayed into pairwise, "
+             "rand_index, ari, mutual_information (MI/AMI/NMI), nce (both normalisations) and vmeasure with random beta; the "
+             "entropy-based values are textbook evaluations (math.log, exact hypergeometric weights) of the spec's table; "
+             "vmeasure must be identical to nce(marginal=True).",
+        ref="4/C16"),
+    "C17": dict(
+        technique="TLA+ triplet-ranking definition of T-/L-measure model-checked and replayed as exact rationals",
+        text="Hierarchy.tla defines frame-pair depth and precision/recall as the mean over query frames with a reference "
+             "triple of the fraction of window triples ranked strictly in the same order (reduced / full). MC_C17 enumerates "
+             "all pairs of small hierarchies (1-2 levels, nested or not) x windows x modes for T (18,816 rows quick) and "
+             "labelled pairs x frame sizes for L; TLC checks ranges and self-perfection; exact rationals are compared to 1e-9 "
+             "with tmeasure/lmeasure (random beta), frame-size variants of one pair back to back.",
+        ref="4/C17"),
 }
 
 PENDING = "check not built yet (build in progress; see DESIGN.md section 10)"
